@@ -145,6 +145,7 @@ class ServerConn:
         self.backend = "pyopenssl" if sslctx is None else "stdlib"
         self.client = MemTls(client_ctx, server_side=False, server_hostname="localhost")
         self.tx_after_fin = 0
+        self.raw_tx = bytearray()  # every byte the server handed to its TCP transport, from connection_made on
         self.tcp = FakeTcp(loop, on_bytes=self._from_server, on_close=self._server_closed, peername=peername,
                            backlog_mode=backlog_mode)
         self.server_closed = False
@@ -168,6 +169,7 @@ class ServerConn:
         self.tcp.attach(self.proto)
 
     def _from_server(self, data: bytes):
+        self.raw_tx += data
         if self.server_closed:
             self.tx_after_fin += len(data)
         self.client.put(data)
